@@ -664,6 +664,7 @@ def check_C07(run: core.Run, replay=None):
         gen_co = checkoutobj.generate()
         co_cases = [c for c in checkoutobj.make_cases(gen_co, rng, 1500 if quick else 12000, "C05")
                     if "bad" in c["init"]["cache"].values()]
+        co_cases += checkoutobj.corrupt_between_cases()      # ... and objects damaged between two checkouts of one process
         checkoutobj.execute_and_validate(run, co_cases)
         run.extra["checkout_cases_with_corrupt_objects"] = len(co_cases)
     traces = execute(cases, run.seed)
